@@ -4,7 +4,9 @@ use super::super::CookieStash;
 /// The cookies currently held, oldest first (what successive `get()` calls would yield).
 pub(crate) fn fifo(s: &CookieStash) -> Vec<Vec<u8>> {
     let n = s.cookies.len();
-    (0..s.valid).map(|i| s.cookies[(s.read + i) % n].clone()).collect()
+    (0..s.valid)
+        .map(|i| s.cookies[(s.read + i) % n].clone())
+        .collect()
 }
 
 /// Raw ring cursor `(read, valid)`.
@@ -15,5 +17,7 @@ pub(crate) fn ring(s: &CookieStash) -> (usize, usize) {
 /// Lengths of the slots that are NOT valid (a consumed cookie must not linger there).
 pub(crate) fn dead_slot_bytes(s: &CookieStash) -> usize {
     let n = s.cookies.len();
-    (s.valid..n).map(|i| s.cookies[(s.read + i) % n].len()).sum()
+    (s.valid..n)
+        .map(|i| s.cookies[(s.read + i) % n].len())
+        .sum()
 }
